@@ -399,4 +399,78 @@ theorem fromU32Lsb_bridge (x : BitVec 32) : fromU32Lsb x.toNat = (Choice.from_u3
 theorem choiceNot_bridge' (x : BitVec 64) : choiceNot x.toNat = (~~~x).toNat := by
   rw [choiceNot, wnot_bv]
 
+/-! ## the bit queries over a slice `&[Limb]` (src/uint/bits.rs): one round of each loop -/
+
+theorem lz_loop_zero (limbs : List (BitVec 64)) (c : BitVec 32) (ne : BitVec 64) :
+    Bits.leading_zeros_loop1 limbs 0 c ne = (c, ne) := by
+  rw [Bits.leading_zeros_loop1]
+
+theorem lz_loop_succ (limbs : List (BitVec 64)) (n : Nat) (c : BitVec 32) (ne : BitVec 64) :
+    Bits.leading_zeros_loop1 limbs (n + 1) c ne =
+      Bits.leading_zeros_loop1 limbs n (c + Choice.if_true_u32 ne (Limb.leading_zeros (limbs.getD n 0#64)))
+        (ne &&& ~~~(Choice.from_word_nonzero (limbs.getD n 0#64))) := by
+  rw [Bits.leading_zeros_loop1] <;> (simp only [Choice.and, Choice.not] <;> shift_congr 6)
+
+theorem lz_eq (limbs : List (BitVec 64)) :
+    Bits.leading_zeros limbs = (Bits.leading_zeros_loop1 limbs limbs.length 0#32 (~~~0#64)).1 := by
+  simp only [Bits.leading_zeros] <;> shift_congr 6
+
+theorem tz_loop_zero (limbs : List (BitVec 64)) (i : Nat) (c : BitVec 32) (ne : BitVec 64) :
+    Bits.trailing_zeros_loop1 limbs 0 i c ne = (c, ne) := by
+  rw [Bits.trailing_zeros_loop1]
+
+theorem tz_loop_succ (limbs : List (BitVec 64)) (n i : Nat) (c : BitVec 32) (ne : BitVec 64) (h : i < limbs.length) :
+    Bits.trailing_zeros_loop1 limbs (n + 1) i c ne =
+      Bits.trailing_zeros_loop1 limbs n (i + 1) (c + Choice.if_true_u32 ne (Limb.trailing_zeros (limbs.getD i 0#64)))
+        (ne &&& ~~~(Choice.from_word_nonzero (limbs.getD i 0#64))) := by
+  rw [Bits.trailing_zeros_loop1, if_pos h] <;> (simp only [Choice.and, Choice.not] <;> shift_congr 6)
+
+theorem tz_eq (limbs : List (BitVec 64)) :
+    Bits.trailing_zeros limbs = (Bits.trailing_zeros_loop1 limbs limbs.length 0 0#32 (~~~0#64)).1 := by
+  simp only [Bits.trailing_zeros] <;> shift_congr 6
+
+theorem to_loop_zero (limbs : List (BitVec 64)) (i : Nat) (c : BitVec 32) (ne : BitVec 64) :
+    Bits.trailing_ones_loop1 limbs 0 i c ne = (c, ne) := by
+  rw [Bits.trailing_ones_loop1]
+
+theorem to_loop_succ (limbs : List (BitVec 64)) (n i : Nat) (c : BitVec 32) (ne : BitVec 64) (h : i < limbs.length) :
+    Bits.trailing_ones_loop1 limbs (n + 1) i c ne =
+      Bits.trailing_ones_loop1 limbs n (i + 1) (c + Choice.if_true_u32 ne (Limb.trailing_ones (limbs.getD i 0#64)))
+        (ne &&& Choice.from_word_eq (limbs.getD i 0#64) (~~~0#64)) := by
+  rw [Bits.trailing_ones_loop1, if_pos h] <;> (simp only [Choice.and] <;> shift_congr 6)
+
+theorem to_eq (limbs : List (BitVec 64)) :
+    Bits.trailing_ones limbs = (Bits.trailing_ones_loop1 limbs limbs.length 0 0#32 (~~~0#64)).1 := by
+  simp only [Bits.trailing_ones] <;> shift_congr 6
+
+theorem bit_loop_zero (limbs : List (BitVec 64)) (lm : BitVec 32) (im : BitVec 64) (i : Nat) (r : BitVec 64) :
+    Bits.bit_loop1 limbs lm im 0 i r = r := by
+  rw [Bits.bit_loop1]
+
+theorem bit_loop_succ (limbs : List (BitVec 64)) (lm : BitVec 32) (im : BitVec 64) (n i : Nat) (r : BitVec 64)
+    (h : i < limbs.length) :
+    Bits.bit_loop1 limbs lm im (n + 1) i r =
+      Bits.bit_loop1 limbs lm im n (i + 1)
+        (r ||| Choice.if_true_word (Choice.from_u32_eq (BitVec.ofNat 32 i) lm) ((limbs.getD i 0#64) &&& im)) := by
+  rw [Bits.bit_loop1, if_pos h] <;> shift_congr 6
+
+theorem bit_eq (limbs : List (BitVec 64)) (idx : BitVec 32) :
+    Bits.bit limbs idx =
+      Choice.from_word_lsb
+        ((Bits.bit_loop1 limbs (idx / 64#32) (1#64 <<< (idx % 64#32)) limbs.length 0 0#64) >>> (idx % 64#32)) := by
+  simp only [Bits.bit] <;> shift_congr 8
+
+theorem fromU32Eq_bridge (x y : BitVec 32) : fromU32Eq x.toNat y.toNat = (Choice.from_u32_eq x y).toNat := by
+  rw [fromU32Eq_spec x.isLt y.isLt, from_u32_eq_meaning, ofBool_toNat]
+  congr 1
+  by_cases h : x = y
+  · subst h; simp
+  · have : x.toNat ≠ y.toNat := fun h0 => h (BitVec.eq_of_toNat_eq h0)
+    simp [h, this]
+
+theorem fromWordNonzero_bridge' (x : BitVec 64) : fromWordNonzero x.toNat = (Choice.from_word_nonzero x).toNat :=
+  fromWordNonzero_bridge x
+theorem fromWordEq_bridge' (x y : BitVec 64) : fromWordEq x.toNat y.toNat = (Choice.from_word_eq x y).toNat :=
+  fromWordEq_bridge x y
+
 end CB.GenBits
